@@ -393,6 +393,18 @@ def ev(t, env, W):
         return OPAQUE
     if k == "CAST":
         b = ev(t[2], env, W)
+        if isinstance(b, FL) and t[1] == "FloatToFloat" and t[4] in ("f32", "f64"):
+            if b.ty == t[4]:
+                return b
+            if t[4] == "f64":
+                # widening is exact
+                return FL.of("f64", struct.unpack("<f", struct.pack("<I", b.bits))[0])
+            # f64 -> f32: IEEE round to nearest, ties to even (what the hardware conversion does)
+            d = struct.unpack("<d", struct.pack("<Q", b.bits))[0]
+            try:
+                return FL("f32", struct.unpack("<I", struct.pack("<f", d))[0])
+            except OverflowError:
+                return FL.of("f32", float("-inf") if d < 0 else float("inf"))
         if isinstance(b, PI) and t[4] in PRIM_BITS:
             return _wrap_prim(t[4], b.v)
         if isinstance(b, bool) and t[4] in PRIM_BITS:
@@ -638,6 +650,10 @@ def _prim_atom(name, label, t, env, W):
                     lo_, hi_ = (-(1 << (b - 1)), (1 << (b - 1)) - 1) if ty.startswith("i") else (0, (1 << b) - 1)
                     return PI(ty, min(max(r_, lo_), hi_))
                 return _wrap_prim(ty, r_)
+            if name == "wrapping_neg" and len(args) == 1:
+                return _wrap_prim(ty, -x)
+            if name == "wrapping_mul" and len(args) == 2 and isinstance(args[1], PI):
+                return _wrap_prim(ty, x * args[1].v)
             if name == "wrapping_shr" and len(args) == 2 and isinstance(args[1], PI):
                 return _wrap_prim(ty, x >> (args[1].v % b))
             if name == "wrapping_shl" and len(args) == 2 and isinstance(args[1], PI):
